@@ -360,7 +360,7 @@ def classify(t):
     return k
 
 
-def check(F, R, tier):
+def check(F, R, tier, only=None):
     I = Interp(F, max_depth=120)
     simp = EXP + "::simplify"
     flat = EXP + "::flatten"
@@ -397,7 +397,7 @@ def check(F, R, tier):
             if len(R.samples) < 10 and show(t) != show(t2):
                 R.sample({"rewrite": name, "in": show(t), "out": show(t2)})
     R.count("REWRITE.evaluations", n_eval)
-    rules = ("REWRITE-EVAL", "REWRITE-SEM", "REWRITE-HAZARD", "IDEMPOTENT")
+    rules = ("REWRITE-EVAL", "REWRITE-SEM", "REWRITE-HAZARD", "IDEMPOTENT") if only is None else tuple(only)
     where = F.loc(F.fn(simp)) if F.fn(simp) else ""
     for rule in rules:
         these = {k: v for k, v in fails.items() if k[0] == rule}
@@ -405,6 +405,8 @@ def check(F, R, tier):
             R.ob(rule, "all-%d-trees" % len(trees), True, where, "holds on every enumerated tree")
         for (r_, key), (t, t2, wit) in sorted(these.items()):
             R.ob(rule, key, False, where, "%s: %s -> %s; %s" % (key, show(t), show(t2) if t2 else "?", wit))
+    if only is not None:
+        return
     truthy_tables(F, R, I)
     normalise_first(F, R)
 
